@@ -624,3 +624,39 @@ Proof.
   - exists sys. split; [exact B|]. vm_compute in B. injection B as <-. reflexivity.
 Qed.
 End MetaTrace.
+
+(* ==== BEGIN rtbuf-from-source (unit rtbuf, Gen/RtBuf_gen.v) ============================================
+   C02_valid_stream_always for the buffer functions GENERATED from src/rt/ovni.c (see the block of the same name in
+   Props/Properties_C01.v: C01_buffer_ops_from_source, C01_runs_from_source; proofs in Proofs/RtBufGenProofs.v):
+   at every moment of a conformant run of the generated code both the written bytes and written ++ buffered bytes
+   are valid streams.  The generated add_flush_events is the repaired one (417af60): the theorem is about fx = true. *)
+From OV Require Import Rt.RtBufPre Rt.RtBufApiDefs Proofs.RtBufGenProofs.
+
+Theorem C02_generated_code_valid_stream : forall cap ops clock g',
+  64 <= cap < 2 ^ 63 -> forallb op_cb ops = true -> existsb is_free ops = false -> clock_okb clock = true ->
+  forallb user_flush_free ops = true ->
+  api_run ops (env_of cap) (g_init clock) = Ok (tt, g') ->
+  valid_stream (g_disk_bytes g') = true /\ valid_stream (g_disk_bytes g' ++ g_buf_bytes g') = true.
+Proof. exact generated_code_valid_stream. Qed.
+Print Assumptions C02_generated_code_valid_stream.
+
+(* add_flush_events, the function repaired by 417af60, against the model with fx = true, for any ovni_ev_add that
+   behaves like the model's on the two markers *)
+Theorem C02_add_flush_events_from_source : forall cap rec_g rec_m,
+  64 <= cap < 2 ^ 63 ->
+  (forall p g s v t, Rep cap g s -> has_ev g p (marker v t) ->
+     same_outcome (RE cap g) (rec_g p (env_of cap) g) (rec_m (marker v t) s)) ->
+  forall t0 t1 g s, Rep cap g s -> ready s = true ->
+  same_outcome (RE cap g) (G.add_flush_events rec_g t0 t1 (env_of cap) g) (add_flush_events true cap rec_m t0 t1 s).
+Proof. intros cap rec_g rec_m H. exact (afe_sim cap H rec_g rec_m). Qed.
+Print Assumptions C02_add_flush_events_from_source.
+
+(* non-vacuity: the program that refuted validity before the repair (a jumbo leaving < 24 free bytes behind a forced
+   flush), on the generated code with a 128-byte buffer: valid, two writes more than the header *)
+Example C02_ex_generated_refuting_program :
+  match api_run [Emit 79 85 120 []; JumboEmit 79 66 46 (repeat 7 100)] (env_of 128) (g_init [10; 20; 30; 40; 50; 60; 70; 80; 90]) with
+  | Ok (_, g') => valid_stream (g_disk_bytes g' ++ g_buf_bytes g') = true /\ length (g_wr g') = 3%nat /\ g_clk g' = [60; 70; 80; 90]
+  | _ => False
+  end.
+Proof. vm_compute. repeat split. Qed.
+(* ==== END rtbuf-from-source ==== *)
